@@ -116,6 +116,7 @@ func (c pathCase) expected() []string {
 }
 
 var treeDirs = map[int]string{}
+var resourceSkips int
 
 func treeDir(root string, c pathCase) string {
 	if d, ok := treeDirs[c.Tree]; ok {
@@ -149,8 +150,8 @@ func runCase(root string, c pathCase) string {
 			w, err = watch.NewWatcher("w", nil, c.Include, c.Exclude, task.FromCommands("true"))
 		}
 		if err != nil && strings.Contains(err.Error(), "too many open files") {
-			fmt.Fprintln(os.Stderr, "resource exhaustion (inotify instances), not a verdict:", err)
-			os.Exit(2)
+			panicked = "RESOURCE"
+			return
 		}
 		if err != nil {
 			panicked = "error: " + err.Error()
@@ -159,6 +160,10 @@ func runCase(root string, c pathCase) string {
 		got, _, _ = watch.VerifDump(w)
 		watch.VerifClose(w)
 	}()
+	if panicked == "RESOURCE" {
+		resourceSkips++ // inotify instances exhausted by other activity: this case is not judged
+		return ""
+	}
 	if panicked != "" {
 		return "NewWatcher failed: " + panicked
 	}
@@ -323,5 +328,9 @@ done:
 	res.Nontrivial = int64(len(distinct))
 	res.Configs = res.Evaluations
 	res.Extra["patterns"] = int64(len(pats))
+	if resourceSkips > 0 {
+		res.Exhaustive = false
+		res.Capped = fmt.Sprintf("%d cases not judged: inotify instances exhausted by other activity on the machine", resourceSkips)
+	}
 	res.Write()
 }
